@@ -100,6 +100,13 @@ var diagFrags = []struct {
 	{"Overlapping struct settings found", 27},
 	{"Overlapping signatures found", 28},
 	{"Invalid struct field mapping on method", 29},
+	{"Could not satisfy all required context parameters", 34},
+	{"Used method returns error but conversion method does not", 35},
+	{"Method source type mismatches with conversion source", 37},
+	{"Method return type mismatches with target", 38},
+	{"but not all required context params are available", 33},
+	{"because no error is returned as second return parameter", 36},
+	{"Error parsing struct method", 39},
 	{"Error using method", 30},
 	{"target type must be a pointer struct", 32},
 	{"source type must be a struct or pointer struct", 32},
@@ -142,11 +149,7 @@ func writeModule(root string, p *Program, convs []*ConvSpec) {
 			for _, l := range m.Lines {
 				body.WriteString("\t// goverter:" + l + "\n")
 			}
-			if m.Update {
-				fmt.Fprintf(&body, "\t%s(source %s, target %s)\n", m.Name, p.goType(m.Src, 1), p.goType(m.Tgt, 1))
-			} else {
-				fmt.Fprintf(&body, "\t%s(source %s) %s\n", m.Name, p.goType(m.Src, 1), p.goType(m.Tgt, 1))
-			}
+			fmt.Fprintf(&body, "\t%s\n", methodSig(p, m))
 		}
 		body.WriteString("}\n\n")
 	}
@@ -155,6 +158,43 @@ func writeModule(root string, p *Program, convs []*ConvSpec) {
 	}
 	sb.WriteString(body.String())
 	must(os.WriteFile(filepath.Join(root, "p", "conv.go"), []byte(sb.String()), 0o644))
+	if len(p.Funcs) > 0 {
+		must(os.MkdirAll(filepath.Join(root, "sup"), 0o755))
+		must(os.MkdirAll(filepath.Join(root, "werr"), 0o755))
+		must(os.WriteFile(filepath.Join(root, "sup", "sup.go"), []byte(supSource), 0o644))
+		must(os.WriteFile(filepath.Join(root, "werr", "werr.go"), []byte(werrSource), 0o644))
+		for pkg := 1; pkg <= 2; pkg++ {
+			if src := p.funcsSource(pkg); src != "" {
+				must(os.WriteFile(filepath.Join(root, pkgNames[pkg], "funcs.go"), []byte(src), 0o644))
+			}
+		}
+	}
+}
+
+// methodSig renders a declared converter method: contexts before or after the source, optional error result.
+func methodSig(p *Program, m *MethodSpec) string {
+	var ps []string
+	var cs []string
+	for _, c := range m.Ctx {
+		cs = append(cs, c.Name+" "+p.goType(c.T, 1))
+	}
+	src := "source " + p.goType(m.Src, 1)
+	if m.CtxFirst {
+		ps = append(append(ps, cs...), src)
+	} else {
+		ps = append(append(ps, src), cs...)
+	}
+	if m.Update {
+		ps = append(ps, "target "+p.goType(m.Tgt, 1))
+		if m.Err {
+			return fmt.Sprintf("%s(%s) error", m.Name, strings.Join(ps, ", "))
+		}
+		return fmt.Sprintf("%s(%s)", m.Name, strings.Join(ps, ", "))
+	}
+	if m.Err {
+		return fmt.Sprintf("%s(%s) (%s, error)", m.Name, strings.Join(ps, ", "), p.goType(m.Tgt, 1))
+	}
+	return fmt.Sprintf("%s(%s) %s", m.Name, strings.Join(ps, ", "), p.goType(m.Tgt, 1))
 }
 
 // runGoverter: per-converter outcome of the real generator on the module.
@@ -175,6 +215,9 @@ func runGoverter(root string, convs []*ConvSpec, globals []string) (map[string]*
 		if errs[i] != nil {
 			o.Msg = errs[i].Error()
 			o.Class = 97 // configuration-stage diagnostic
+			if strings.Contains(o.Msg, "error parsing type") || strings.Contains(o.Msg, "does not have methods with names that match") {
+				o.Class = 40 // a custom function is not usable for the setting that names it (Sig model)
+			}
 			continue
 		}
 		func() {
@@ -217,7 +260,10 @@ type runCase struct {
 	Compile string
 	CtxT    []*Ty   // context parameter types and the values passed
 	CtxV    []int64
+	CtxFirst bool
+	RetErr  bool    // the method has an error result
 	Err     string  // the call returned an error: Coq term (fn, wraps)
+	ErrOracle string // verdict of the direct C07 oracle ("" = holds)
 	Custom  bool
 }
 
@@ -333,6 +379,7 @@ func (p *pr) show(v reflect.Value, n0 int, path []string, shared *[]string, unde
 // sc: direct statement of C02 on the implementation: the result is the structural image of the source
 // (fields by name; skip = field names touched by map/ignore settings). Returns "" when it holds.
 func sc(s, d reflect.Value, path string, skip map[string]bool) string {
+	if skip["<custom>"] { return "" }
 	if d.Kind() == reflect.Ptr && s.Kind() != reflect.Ptr {
 		if d.IsNil() { return path + ": nil pointer for a non-pointer source" }
 		return sc(s, d.Elem(), path, skip)
@@ -435,7 +482,7 @@ func reportUpdate(w *bufio.Writer, id int, n0 int, srcp, resp interface{}, befor
 	if s.Kind() == reflect.Ptr {
 		if s.IsNil() { nilSrc = true } else { s = s.Elem() }
 	}
-	for i := 0; i < res.NumField() && verdict == ""; i++ {
+	for i := 0; i < res.NumField() && verdict == "" && !skip["<custom>"]; i++ {
 		name := res.Type().Field(i).Name
 		if skip[name] || (skip["<unexported>"] && res.Type().Field(i).PkgPath != "") { continue }
 		if nilSrc {
@@ -471,6 +518,74 @@ func snapshot(srcp interface{}) string {
 }
 `
 
+const errPrelude = `
+func clearFailed() { sup.Failed = nil }
+
+// direct statement of C07: no custom function failed when the method returns without an error ...
+func checkNoFailure(w *bufio.Writer, id int) {
+	if len(sup.Failed) > 0 {
+		fmt.Fprintf(w, "O\t%d\tcustom function fn%d returned an error but the generated method returned none\n", id, sup.Failed[0])
+	}
+}
+
+// reportErr prints the failing function and the path elements of every wrapper, outermost first.
+func reportErr(w *bufio.Writer, id int, err error) {
+	// ... and a returned error is, or wraps, the error of the function that failed
+	var se *sup.Err
+	switch {
+	case len(sup.Failed) == 0:
+		fmt.Fprintf(w, "O\t%d\tthe generated method returned an error although no custom function failed: %v\n", id, err)
+	case !errors.As(err, &se) || se.Fn != sup.Failed[0]:
+		fmt.Fprintf(w, "O\t%d\tthe returned error does not wrap the error of the failing function fn%d: %v\n", id, sup.Failed[0], err)
+	}
+	fn := -1
+	var wraps []string
+	for err != nil && fn < 0 {
+		switch e := err.(type) {
+		case *werr.W:
+			var es []string
+			for _, x := range e.Path {
+				switch x.Kind {
+				case 0:
+					es = append(es, "DField " + runes(x.Name))
+				case 1:
+					es = append(es, fmt.Sprintf("DIndex %d", x.Idx))
+				default:
+					es = append(es, fmt.Sprintf("DKey (%d)", x.Key))
+				}
+			}
+			wraps = append(wraps, "[" + strings.Join(es, "; ") + "]")
+			err = e.Inner
+		case *sup.Err:
+			fn = e.Fn
+		default:
+			msg := err.Error()
+			var n int
+			switch {
+			case strings.HasPrefix(msg, "error setting field "):
+				rest := strings.TrimPrefix(msg, "error setting field ")
+				wraps = append(wraps, "[DField " + runes(rest[:strings.Index(rest, ": ")]) + "]")
+			case strings.HasPrefix(msg, "error setting index "):
+				fmt.Sscanf(msg, "error setting index %d:", &n)
+				wraps = append(wraps, fmt.Sprintf("[DIndex %d]", n))
+			default:
+				wraps = append(wraps, "[DField " + runes("?unknown wrapper: " + msg) + "]")
+			}
+			err = errors.Unwrap(err)
+		}
+	}
+	fmt.Fprintf(w, "R\t%d\tERR\t(%d, [%s])\n", id, fn, strings.Join(wraps, "; "))
+}
+
+func runes(s string) string {
+	var ps []string
+	for _, r := range s {
+		ps = append(ps, fmt.Sprint(int(r)))
+	}
+	return "[" + strings.Join(ps, "; ") + "]"
+}
+`
+
 // writeDriver renders cmd/drv/main.go for the runnable cases.
 func writeDriver(root string, p *Program, cases []*runCase, race bool) {
 	var body strings.Builder
@@ -490,25 +605,39 @@ func writeDriver(root string, p *Program, cases []*runCase, race bool) {
 		if rc.SamePk {
 			pkg = "p"
 		}
+		var ctxArgs []string
+		for i, t := range rc.CtxT {
+			u := p.under(t)
+			ctxArgs = append(ctxArgs, b.lit(u.Kind, rc.CtxV[i], p.goType(t, 0)))
+		}
+		args := append([]string{"src"}, ctxArgs...)
+		if rc.CtxFirst {
+			args = append(append([]string{}, ctxArgs...), "src")
+		}
+		var sk []string
+		for _, n := range rc.Skip {
+			sk = append(sk, fmt.Sprintf("%q: true", n))
+		}
+		if rc.Custom {
+			sk = append(sk, `"<custom>": true`)
+		}
 		if rc.Pre != nil {
 			pexpr := b.expr(rc.Pre)
-			for _, d := range b.decls[len(b.decls)-0:] {
-				_ = d
-			}
 			fmt.Fprintf(&body, "\tvar res %s = %s\n\tpre := snapshotFields(&res)\n", p.goType(rc.Pre.T, 0), pexpr)
-			fmt.Fprintf(&body, "\t(&%s.%sImpl{}).%s(src, &res)\n", pkg, rc.Conv, rc.Method)
-			var sk []string
-			for _, n := range rc.Skip {
-				sk = append(sk, fmt.Sprintf("%q: true", n))
+			args = append(args, "&res")
+			if rc.RetErr {
+				fmt.Fprintf(&body, "\tclearFailed()\n\tif err := (&%s.%sImpl{}).%s(%s); err != nil {\n\t\treportErr(w, %d, err)\n\t\treturn\n\t}\n\tcheckNoFailure(w, %d)\n", pkg, rc.Conv, rc.Method, strings.Join(args, ", "), rc.ID, rc.ID)
+			} else {
+				fmt.Fprintf(&body, "\tclearFailed()\n\t(&%s.%sImpl{}).%s(%s)\n\tcheckNoFailure(w, %d)\n", pkg, rc.Conv, rc.Method, strings.Join(args, ", "), rc.ID)
 			}
 			fmt.Fprintf(&body, "\treportUpdate(w, %d, %d, &src, &res, before, pre, [3]bool{%v, %v, %v}, map[string]bool{%s})\n}\n\n", rc.ID, rc.N0, rc.ZeroFlags[0], rc.ZeroFlags[1], rc.ZeroFlags[2], strings.Join(sk, ", "))
 			calls = append(calls, fmt.Sprintf("\tcase_%d(w)", rc.ID))
 			continue
 		}
-		fmt.Fprintf(&body, "\tres := (&%s.%sImpl{}).%s(src)\n", pkg, rc.Conv, rc.Method)
-		var sk []string
-		for _, n := range rc.Skip {
-			sk = append(sk, fmt.Sprintf("%q: true", n))
+		if rc.RetErr {
+			fmt.Fprintf(&body, "\tclearFailed()\n\tres, err := (&%s.%sImpl{}).%s(%s)\n\tif err != nil {\n\t\treportErr(w, %d, err)\n\t\treturn\n\t}\n\tcheckNoFailure(w, %d)\n", pkg, rc.Conv, rc.Method, strings.Join(args, ", "), rc.ID, rc.ID)
+		} else {
+			fmt.Fprintf(&body, "\tclearFailed()\n\tres := (&%s.%sImpl{}).%s(%s)\n\tcheckNoFailure(w, %d)\n", pkg, rc.Conv, rc.Method, strings.Join(args, ", "), rc.ID)
 		}
 		fmt.Fprintf(&body, "\treport(w, %d, %d, &src, &res, before, map[string]bool{%s})\n}\n\n", rc.ID, rc.N0, strings.Join(sk, ", "))
 		calls = append(calls, fmt.Sprintf("\tcase_%d(w)", rc.ID))
@@ -525,7 +654,15 @@ func writeDriver(root string, p *Program, cases []*runCase, race bool) {
 	if strings.Contains(text, "generated.") {
 		fmt.Fprintf(&sb, "\tgenerated %q\n", pkgPaths[3])
 	}
+	if len(p.Funcs) > 0 {
+		sb.WriteString("\t\"errors\"\n\tsup \"example.org/m/sup\"\n\twerr \"example.org/m/werr\"\n")
+	}
 	sb.WriteString(")\n\nvar _ = sort.Ints\nvar _ = strings.Join\n")
+	if len(p.Funcs) > 0 {
+		sb.WriteString(errPrelude)
+	} else {
+		sb.WriteString("func reportErr(w *bufio.Writer, id int, err error) { fmt.Fprintf(w, \"R\\t%d\\tERR\\t(0, [])\\n\", id) }\nfunc clearFailed() {}\nfunc checkNoFailure(w *bufio.Writer, id int) {}\n")
+	}
 	seenConv := map[string]bool{}
 	for _, rc := range cases { // the emitted struct implements the declared interface
 		if seenConv[rc.Conv] {
@@ -579,6 +716,14 @@ func buildAndRun(root string, cases []*runCase, race bool) (string, error) {
 	sc.Buffer(make([]byte, 1<<20), 1<<26)
 	for sc.Scan() {
 		parts := strings.Split(sc.Text(), "\t")
+		if len(parts) >= 3 && parts[0] == "O" {
+			var oid int
+			fmt.Sscan(parts[1], &oid)
+			if oc := byID[oid]; oc != nil {
+				oc.ErrOracle = parts[2]
+			}
+			continue
+		}
 		if len(parts) < 3 || parts[0] != "R" {
 			continue
 		}
@@ -590,6 +735,10 @@ func buildAndRun(root string, cases []*runCase, race bool) (string, error) {
 		}
 		if parts[2] == "PANIC" {
 			c.Panic = parts[3]
+			continue
+		}
+		if parts[2] == "ERR" {
+			c.Err = parts[3]
 			continue
 		}
 		c.Out, c.Shared = parts[3], parts[4]
